@@ -93,6 +93,11 @@ func errClass(err error) string {
 	if strings.Contains(msg, "invalid crc") {
 		return "err:crc"
 	}
+	if strings.Contains(msg, "must be greater than 0") || strings.Contains(msg, "BytesPerSync should not") ||
+		strings.Contains(msg, "SyncStrategy should not") || strings.Contains(msg, "invalid merge ratio") ||
+		strings.Contains(msg, "dir path is empty") {
+		return "err:options" // checkOptions
+	}
 	if strings.Contains(msg, "merge abandoned") || strings.Contains(msg, "merge output") {
 		return "err:mergeids"
 	}
